@@ -18,7 +18,7 @@ use chia_consensus::solution_generator::calculate_generator_length;
 use chia_consensus::spendbundle_conditions::run_spendbundle;
 use chia_protocol::{Bytes32, Coin, CoinSpend, Program, SpendBundle};
 use clvmr::allocator::{Allocator, NodePtr, SExp};
-use clvmr::serde::{node_from_bytes_backrefs, node_to_bytes};
+use clvmr::serde::{node_from_bytes_backrefs, node_to_bytes, node_to_bytes_backrefs};
 use serde::{Deserialize, Serialize};
 use serde_json::{json, Value};
 use sha2::{Digest as _, Sha256};
@@ -29,6 +29,9 @@ use std::sync::OnceLock;
 pub enum CondSpec {
     CreateCoin { ph: u8, amount: u64 },
     Remark { blob: u8 },
+    /// REMARK whose argument is a pair-heavy tree (depth levels; leaves from a tiny vocabulary,
+    /// so sub-trees repeat within and across spends)
+    RemarkTree { depth: u8, seed: u8 },
 }
 
 #[derive(Serialize, Deserialize, Clone, Debug, PartialEq)]
@@ -40,6 +43,11 @@ pub struct SpendSpec {
     /// true: puzzle is `(q . conditions)` and the solution is nil
     #[serde(default)]
     pub quoted: bool,
+    /// the solution / puzzle bytes handed to the builder use back-reference serialisation
+    /// (the builder accepts it; the mempool's run_spendbundle does not, so such an
+    /// attempt never counts as truthful)
+    #[serde(default)]
+    pub backrefs: bool,
 }
 
 #[derive(Serialize, Deserialize, Clone, Debug, PartialEq)]
@@ -145,10 +153,30 @@ fn solution_bytes(sp: &SpendSpec) -> Vec<u8> {
                 let b = a.new_atom(&v.blobs[*blob as usize % v.blobs.len()]).unwrap();
                 conds.push(list(&mut a, &[op, b]));
             }
+            CondSpec::RemarkTree { depth, seed } => {
+                fn tree(a: &mut Allocator, depth: u8, x: &mut u32) -> NodePtr {
+                    *x = x.wrapping_mul(1_103_515_245).wrapping_add(12_345);
+                    if depth == 0 || (*x >> 16) % 7 == 0 {
+                        let leaf = [b"a".as_slice(), b"bc", b"", b"leaf-leaf-leaf"][((*x >> 8) % 4) as usize];
+                        return a.new_atom(leaf).unwrap();
+                    }
+                    let l = tree(a, depth - 1, x);
+                    let r = tree(a, depth - 1, x);
+                    a.new_pair(l, r).unwrap()
+                }
+                let op = a.new_atom(&[1]).unwrap();
+                let mut x = u32::from(*seed) + 1;
+                let t = tree(&mut a, (*depth).min(9), &mut x);
+                conds.push(list(&mut a, &[op, t]));
+            }
         }
     }
     let l = list(&mut a, &conds);
-    node_to_bytes(&a, l).unwrap()
+    if sp.backrefs {
+        node_to_bytes_backrefs(&a, l).unwrap()
+    } else {
+        node_to_bytes(&a, l).unwrap()
+    }
 }
 
 fn build_bundle(b: &BundleSpec) -> SpendBundle {
@@ -740,6 +768,8 @@ impl Engine for C10 {
                             if used.insert((ph, amount)) {
                                 conds.push(CondSpec::CreateCoin { ph, amount });
                             }
+                        } else if rng.chance(1, 6) {
+                            conds.push(CondSpec::RemarkTree { depth: rng.range(1, 8) as u8, seed: rng.below(4) as u8 });
                         } else {
                             conds.push(CondSpec::Remark { blob: if rng.chance(1, 12) { 4 + rng.below(2) as u8 } else { rng.below(4) as u8 } });
                         }
@@ -759,10 +789,10 @@ impl Engine for C10 {
                         let mut seen = std::collections::BTreeSet::new();
                         conds.retain(|c| match c {
                             CondSpec::CreateCoin { ph, .. } => seen.insert(*ph),
-                            CondSpec::Remark { .. } => true,
+                            CondSpec::Remark { .. } | CondSpec::RemarkTree { .. } => true,
                         });
                     }
-                    spends.push(SpendSpec { parent_seed: parent_counter, amount, conds, quoted: rng.chance(1, 4) });
+                    spends.push(SpendSpec { parent_seed: parent_counter, amount, conds, quoted: rng.chance(1, 4), backrefs: rng.chance(1, 10) });
                 }
                 let corrupt = if !spends.is_empty() && rng.below(100) < fault_pct / 2 {
                     let spend = rng.usize_below(spends.len()) as u8;
